@@ -705,7 +705,7 @@ pub fn run(ctx: &mut RunCtx) {
     ctx.explore(
         "tuples",
         "value triples (numeric triples related through type change / +-1 / ulp steps around 2^53 and 2^63, strings incl. temporal-looking ones, lists, maps, nulls) as literals or parameters; 54 comparison results checked against exact equality/order and against each other (symmetry, converse, trichotomy, transitivity), 26 null-propagation results, 8 arithmetic results against the documented overflow rule; non-trivial = the triple contains a boundary number (|v| >= 2^53-2, non-finite, -0.0) or a null",
-        ctx.tier.pick(240_000, 1_500_000),
+        ctx.tier.pick(240_000, 4_500_000),
         move || tuple_strategy(excl_temporal),
         check_tuple,
     );
@@ -713,7 +713,7 @@ pub fn run(ctx: &mut RunCtx) {
     ctx.explore(
         "folds",
         "integer lists near the i64 limits through reduce(+), reduce(*) (exact left fold with float fallback), sum() (exact i128 total, float only if a partial sum or the total overflows, never wrapped) and range() ending at the limits; non-trivial = some partial sum/product or the total overflows, or the range touches an i64 limit",
-        ctx.tier.pick(80_000, 500_000),
+        ctx.tier.pick(80_000, 1_500_000),
         fold_strategy,
         check_fold,
     );
